@@ -79,6 +79,7 @@ def gen_case(run_seed: int, index: int, tier: str) -> dict:
         "warmup_n": rng.choice([1, 1, 2, 4]), "other_instance_first": rng.random() < 0.2, "mode": rng.choice([None, None, "eval", "train"]),
         "module_cast": rng.choice([None, None, None, "double", "half", "bfloat16", "float", "to_cpu", "deepcopy"]),
         "noncontig": rng.random() < 0.25,
+        "sibling_sweep": rng.random() < 0.2,
     }
 
 
@@ -150,6 +151,20 @@ def execute(case: dict) -> RunResult:
         _channel(other)(torch.randint(0, 2, (4, 6)).to(torch.float32))
         res.faults["history.other_instance_first"] += 1
     ch = _channel(case)
+    if case.get("sibling_sweep"):
+        # a second channel configured with the SAME probability is swept afterwards by updating its probability in place
+        # (`sib.crossover_prob += 0.1`): that is the sibling's business and must not move the channel under test
+        sib = _channel(dict(case, how="class"))
+        attr = {"bsc": "crossover_prob", "bec": "erasure_prob", "z": "error_prob"}[case["channel"]]
+        cur = getattr(sib, attr, None)
+        try:
+            if isinstance(cur, torch.Tensor):
+                cur += 0.37 if float(cur) < 0.5 else -0.37
+            else:
+                setattr(sib, attr, (cur + 0.37) if cur < 0.5 else (cur - 0.37))
+            res.faults["history.sibling_probability_updated_in_place"] += 1
+        except Exception:
+            res.probes["sibling_update_rejected"] += 1
     if case.get("mode"):
         ch.train(case["mode"] == "train")
     if case.get("module_cast"):
